@@ -68,7 +68,7 @@ def measure(prop, seed=1, repo="/repo", log=lambda s: None):
     profiles = []
     runs = []
     try:
-        shutil.copyfile(os.path.join(repo, "go.sum"), os.path.join(HARNESS, "go.sum")) if repo == "/repo" else None
+        # (harness/go.sum was installed by ./check; tiecover is also usable by hand after any ./check run)
         for h in load_cfg(prop):
             name = h["name"]
             out = os.path.join(tmp, name + ".bin")
